@@ -10,6 +10,7 @@ import (
 	"crypto/tls"
 	"fmt"
 	"net/http"
+	"net/textproto"
 
 	"github.com/pkg/errors"
 	"github.com/ysugimoto/falco/v2/interpreter/exception"
@@ -61,15 +62,16 @@ func SendRequest(req *Request) (*Response, error) {
 type headerKeyStore map[string]struct{}
 
 // Distinguish whether header is actually assigned or not
+// Header names are case-insensitive, so keys are stored in the canonical form like http.Header does
 func (h headerKeyStore) IsAssigned(name string) bool {
-	_, v := h[name]
+	_, v := h[textproto.CanonicalMIMEHeaderKey(name)]
 	return v
 }
 
 func (h headerKeyStore) Assign(name string) {
-	h[name] = struct{}{}
+	h[textproto.CanonicalMIMEHeaderKey(name)] = struct{}{}
 }
 
 func (h headerKeyStore) Unassign(name string) {
-	delete(h, name)
+	delete(h, textproto.CanonicalMIMEHeaderKey(name))
 }
